@@ -930,6 +930,16 @@ class Model:
 
         """
         value = self._parameters[name].value if initial_value is None else initial_value
+
+        # Check all targets before changing anything, a rejected edit must not be applied partially
+        for rxn_name in stoichiometries or {}:
+            if rxn_name not in self._reactions and not any(
+                surrogate.stoichiometries.get(rxn_name)
+                for surrogate in self._surrogates.values()
+            ):
+                msg = f"Reaction '{rxn_name}' not found in reactions or surrogates"
+                raise KeyError(msg)
+
         self.remove_parameter(name)
         self.add_variable(name, value)
 
